@@ -33,6 +33,23 @@ fn d1() -> String { guard(|| {
     o.try_get_value()
 })}
 
+/// D1, second form: the node is re-linked while stale *and* its input changes again in the same
+/// stabilise with an unchanged projection (a repair that only resets the flag on re-link is not enough)
+fn d1b() -> String { guard(|| {
+    let st = IncrState::new();
+    let x = st.var((1i32, 10i32));
+    let _ox = x.observe();
+    let r = x.map_ref(|t| &t.0);
+    let p = r.map(|v| v * 2);
+    let o = p.observe();
+    st.stabilise();
+    drop(o); st.stabilise();
+    x.set((5, 10)); st.stabilise();
+    x.set((5, 20));
+    let o = p.observe(); st.stabilise();
+    o.try_get_value()
+})}
+
 fn d2() -> String { guard(|| {
     let st = IncrState::new();
     let x = st.var(1i32);
@@ -209,6 +226,7 @@ fn d10() -> String {
 fn main() {
     std::panic::set_hook(Box::new(|_| {}));
     println!("D1:  {} | expect Ok(10)", d1());
+    println!("D1b: {} | expect Ok(10)", d1b());
     println!("D2:  {} | expect (Ok(1104), [rhs[x=2](1102), m(1104)])", d2());
     println!("D3:  {} | expect Ok(7)", d3());
     println!("D4:  {} | expect [Initialised(1), Changed(2)]", d4());
